@@ -49,18 +49,19 @@ func ruleC14b(c *Ctx, rule string) {
 		// key dropped only if no column survives: the early 'return highWaterMark, nil' before writing is guarded by hasActiveSequence == false
 		okDrop := false
 		for _, ci := range findIfs(dw, func(v ssa.Value) bool {
-			p, ok := v.(*ssa.Phi)
-			if !ok || typeStr(p.Type()) != "bool" {
+			if _, ok := v.(*ssa.Phi); !ok || typeStr(v.Type()) != "bool" {
 				return false
 			}
 			hasTrue, hasFalse := false, false
-			for _, e := range p.Edges {
-				if b, isC := constBool(e); isC {
-					if b {
-						hasTrue = true
-					} else {
-						hasFalse = true
-					}
+			for _, e := range phiLeaves(v) {
+				b, isC := constBool(e)
+				if !isC {
+					return false
+				}
+				if b {
+					hasTrue = true
+				} else {
+					hasFalse = true
 				}
 			}
 			return hasTrue && hasFalse
@@ -152,23 +153,11 @@ func ruleC14c(c *Ctx, rule string) {
 			dr = fl.Params[len(fl.Params)-1]
 		}
 		ok := false
-		for _, f := range withAnon(fl) {
+		for _, f := range withHelpers(c.P, fl) {
 			for _, call := range callsTo(f, "(*z.fileStore).iterate") {
 				a := call.Common().Args
 				if len(a) >= 5 {
-					if u, isU := a[4].(*ssa.UnOp); isU && u.Op == token.NOT {
-						x := u.X
-						if fv, isFV := x.(*ssa.FreeVar); isFV {
-							x = cellRoot(fv)
-						}
-						if ld, isLd := x.(*ssa.UnOp); isLd && ld.Op == token.MUL {
-							// captured by reference: a cell initialised from the parameter
-							cell := cellRoot(ld.X)
-							sts := cellStores(fl, cell)
-							if len(sts) == 1 {
-								x = sts[0].Val
-							}
-						}
+					if x, isNot := notOf(c.P, a[4], fl); isNot {
 						ok = x == ssa.Value(dr)
 					}
 				}
